@@ -347,12 +347,85 @@ func c09RunTwoPortals(cell c09Cell, firstBinary bool) explore.Result {
 	return res
 }
 
+// c09RunRedefine: a statement name is defined again (other columns, other values) while a portal bound to the
+// earlier definition is still open. Each portal's DataRow must match the RowDescription of that very portal.
+func c09RunRedefine(name string, a, b []c09Cell, fa, fb int16) explore.Result {
+	var res explore.Result
+	res.Outcome = "values"
+	res.Key = fmt.Sprint("redefine", name, len(a), len(b), fa, fb)
+	mkCols := func(cells []c09Cell) wire.Columns {
+		var cols wire.Columns
+		for i, c := range cells {
+			cols = append(cols, wire.Column{Name: fmt.Sprintf("c%d", i), Oid: oid.Oid(c.OID)})
+		}
+		return cols
+	}
+	parse := func(ctx context.Context, q string) (wire.PreparedStatements, error) {
+		cells := a
+		if q == "second" {
+			cells = b
+		}
+		return wire.Prepared(wire.NewStatement(func(ctx context.Context, w wire.DataWriter, p []wire.Parameter) error {
+			row := make([]any, len(cells))
+			for i, c := range cells {
+				row[i] = c.V
+			}
+			if err := w.Row(row); err != nil {
+				return err
+			}
+			return w.Complete("SELECT 1")
+		}, wire.WithColumns(mkCols(cells)))), nil
+	}
+	one, err := harness.StartOne(parse)
+	if err != nil {
+		res.Engine = err.Error()
+		return res
+	}
+	defer one.Stop()
+	one.Step(pgproto.Startup("user", "u"))
+	out, _ := one.Step(pgproto.Cat(pgproto.Parse(name, "first"), pgproto.Bind("p1", name, nil, nil, []int16{fa}), pgproto.Describe('P', "p1"),
+		pgproto.Parse(name, "second"), pgproto.Bind("p2", name, nil, nil, []int16{fb}), pgproto.Describe('P', "p2"),
+		pgproto.Execute("p1", 0), pgproto.Execute("p2", 0), pgproto.Execute("p1", 0), pgproto.Sync()))
+	ms, perr := pgproto.ParseBackend(out)
+	if perr != nil {
+		res.Fail("reply-grammar", perr.Error())
+		return res
+	}
+	k := pgproto.Kinds(ms)
+	if !strings.HasPrefix(k, "12T12TDCDC") {
+		res.Outcome = "redefinition-refused"
+		return res // refusing the second definition (or the use of the first portal afterwards) is not a C09 matter
+	}
+	for i, pair := range [][2]int{{2, 6}, {5, 8}, {2, 10}} {
+		if pair[1] >= len(ms) || ms[pair[1]].Type != 'D' {
+			continue
+		}
+		t, d := ms[pair[0]], ms[pair[1]]
+		portal := []string{"p1", "p2", "p1 (executed again)"}[i]
+		if len(d.Row) != len(t.Cols) {
+			res.Fail("datarow-arity", fmt.Sprintf("statement %q defined twice: portal %s was described with %d fields (%s) but its DataRow carries %d fields (%s)", name, portal, len(t.Cols), t, len(d.Row), d))
+			continue
+		}
+		want := a
+		if i == 1 {
+			want = b
+		}
+		for j, f := range d.Row {
+			got, derr := pgproto.DecodeValue(t.Cols[j].OID, t.Cols[j].Format, f)
+			if derr != nil || (j < len(want) && got != want[j].Canon) {
+				res.Fail("value-mismatch", fmt.Sprintf("statement %q defined twice: portal %s column %d announced oid %d format %d, field % x decodes to %q (%v)", name, portal, j, t.Cols[j].OID, t.Cols[j].Format, f, got, derr))
+			}
+		}
+	}
+	return res
+}
+
 func init() {
 	explore.Register(&explore.Check{
 		ID:          "C09",
 		Level:       "exploration",
 		Technique:   "exhaustive enumeration over a stated value alphabet (types x boundary values x Go source forms x NULL forms x formats x NULL placements in rows of 1-3 columns), each row written through a live session and decoded by an independent decoder in the announced format",
-		Rule:        "types bool,int2,int4,int8,float4,float8,text,varchar,bytea,uuid (+date,timestamp,timestamptz,json thorough); boundary values per type; source forms native / pgtype.X{Valid:true} / pointer; NULL forms untyped nil / typed nil pointer / invalid pgtype value; text via simple query, binary via Bind result code 1; multi-column rows over a 5-type subset with every NULL placement x every NULL form; non-trivial = row accepted by the writer",
+		Rule:        "types bool,int2,int4,int8,float4,float8,text,varchar,bytea,uuid (+date,timestamp,timestamptz,json thorough); boundary values per type; source forms native / pgtype.X{Valid:true} / pointer; NULL forms untyped nil / typed nil pointer / invalid pgtype value; text via simple query, binary via Bind result code 1; multi-column rows over a 5-type subset with every NULL placement x every NULL form; redefined statements: a name defined twice (1-3 columns each, both formats) while a portal of the first definition is open, every DataRow against the RowDescription of its own portal; non-trivial = row accepted by the writer",
 		Assumptions: []string{"small-scope claim: exhaustive for the listed alphabet only", "a source form that pgx cannot encode (Row returns an error) is outside the claim; it must emit nothing"},
 		Enumerate:   c09Enumerate,
 		Bounds: func(tier string) map[string]any {
@@ -420,6 +493,24 @@ func c09Enumerate(tier string, emit explore.Emit) {
 			}
 		}
 		return c09Cell{}, false
+	}
+	// a statement name defined twice while a portal of the first definition is open
+	for _, name := range []string{"", "s"} {
+		for la := 1; la <= 3; la++ {
+			for lb := 1; lb <= 3; lb++ {
+				for _, fa := range []int16{0, 1} {
+					for _, fb := range []int16{0, 1} {
+						name, fa, fb := name, fa, fb
+						a, b := append([]c09Cell(nil), base[:la]...), append([]c09Cell(nil), base[5-lb:]...)
+						emit(explore.Case{Family: "redefined-statement", Size: la + lb,
+							Desc: func() any {
+								return map[string]any{"statement": name, "first_definition_columns": la, "second_definition_columns": lb, "formats": []int16{fa, fb}}
+							},
+							Run: func() explore.Result { return c09RunRedefine(name, a, b, fa, fb) }})
+					}
+				}
+			}
+		}
 	}
 	for width := 1; width <= 3; width++ {
 		forShapes(len(base), width, func(sh []int) {
